@@ -86,7 +86,8 @@ class World(object):
                         vals[k][0] = 1200.0 + k
                         vals[k + 3][1] = 1100.0 + k
                     fpne = pne[:4] + ['0,0'] + pne[5:]
-                fcsgen.write_sample(p, vals, names, [1024] * 6, bits=16, datatype=dt, pne=fpne, pnv=pnv, extra=extra)
+                    fpng = [None, None, None, None, '2.5', None]        # the linear channel has an amplifier gain
+                fcsgen.write_sample(p, vals, names, [1024] * 6, bits=16, datatype=dt, pne=fpne, pnv=pnv, png=(fpng if dt != 'I' else None), extra=extra)
                 self.files[(inst, tag)] = os.path.basename(p)
             # the same integer events with the parameters stored in the opposite order (channels are addressed by name)
             p = os.path.join(self.dir, 'cells_%s_int_perm.fcs' % inst)
@@ -198,7 +199,8 @@ class World(object):
         f = {'ok-int': self.files[(inst, 'int' if variant % 3 != 1 else 'int-perm')], 'ok-float': self.files[(inst, 'float' if variant % 2 == 0 else 'float2')],
              'missing': 'no_such_file.fcs',
              'short': self.files[(inst, 'short')]}[r['file']]
-        frac = {'in': frac_in, 'above': 1.2, 'below': -0.1}[r['frac']]
+        # outside [0, 1] by a lot, or by so little that fraction x events still rounds to a legal count
+        frac = {'in': frac_in, 'above': 1.2 if variant % 2 == 0 else 1.0004, 'below': -0.1 if variant % 2 == 0 else -0.0004}[r['frac']]
         row = collections.OrderedDict([('Instrument ID', inst), ('Beads ID', self.BEADS_ROW[r['beads']]), ('File Path', f),
                                        ('Gate Fraction', frac)])
         for j, u in enumerate(r['units']):
@@ -235,8 +237,10 @@ class World(object):
             reported = [allfl[j] for j, u in enumerate(row_cfg['units']) if u != 'empty']
             for fn, args in calls:
                 if fn == 'to_rfi':
-                    ch = spec['sc'] if args == ['scatter'] else allfl[args[1] - 1]
-                    s = FlowCal.transform.to_rfi(s, ch)
+                    # by hand every conversion is written in the list form, with the channel by position (the workflow
+                    # uses a name list for the scatter channels and a scalar name per fluorescence channel)
+                    ch = spec['sc'] if args == ['scatter'] else [allfl[args[1] - 1]]
+                    s = FlowCal.transform.to_rfi(s, [list(s.channels).index(c) for c in ch])
                 elif fn == 'to_mef':
                     s = fx[table_row['Beads ID']](s, allfl[args[1] - 1])
                 elif fn == 'start_end':
